@@ -228,14 +228,18 @@ def _is_numeric_cast_type(dtype):
     )
 
 
-def _hash_keys(keys):
-    """Express datetime-like key columns in nanoseconds before they are hashed
+def _hash_keys(keys, cast_dtype=None):
+    """Make equal keys hash equally: prepare the key columns for hashing
 
     pandas hashes the integer representation of datetime64 / timedelta64 values,
     which depends on their resolution, but the same instants in different
     resolutions are equal merge keys and have to land in the same partition.
     (The int64 product wraps around for instants that nanoseconds can't
     represent; those can't be equal to a value of a finer resolution anyway.)
+
+    ``cast_dtype`` is applied like in ``partitioning_index``; afterwards the
+    negative zeros of float columns are replaced with ``0.0``: they are equal
+    but pandas hashes their different bit patterns.
     """
     factors = {"s": 10**9, "ms": 10**6, "us": 10**3}
     for i, dtype in enumerate(keys.dtypes):
@@ -247,6 +251,12 @@ def _hash_keys(keys):
             nanos = np.where(ints == np.iinfo("i8").min, ints, ints * factors[unit])
             keys = keys.copy(deep=False)
             keys.isetitem(i, nanos)
+    if cast_dtype is not None:
+        keys = keys.astype(cast_dtype, errors="ignore")
+    for i, dtype in enumerate(keys.dtypes):
+        if pd.api.types.is_float_dtype(dtype):
+            keys = keys.copy(deep=False)
+            keys.isetitem(i, keys.iloc[:, i] + 0.0)  # -0.0 + 0.0 is 0.0
     return keys
 
 
@@ -810,7 +820,7 @@ class AssignPartitioningIndex(Blockwise):
             index = [index] if isinstance(index, str) else list(index)
             index = partitioning_index(df[index], npartitions, cast_dtype)
         else:
-            index = partitioning_index(_hash_keys(index), npartitions, cast_dtype)
+            index = partitioning_index(_hash_keys(index, cast_dtype), npartitions)
         if df.ndim == 1:
             df = df.to_frame()
         return df.assign(**{name: index})
